@@ -41,7 +41,14 @@ func Idx(id identity.AgentID) int {
 type Keys struct {
 	Pub, WrongPub   ed25519.PublicKey
 	Priv, WrongPriv ed25519.PrivateKey
+	// signature bytes of the last validly signed command built in this case
+	// (what any mesh peer can copy off the wire)
+	lastSig  [64]byte
+	haveLast bool
 }
+
+// ResetCase forgets the signature remembered for the "copied" kind.
+func (k *Keys) ResetCase() { k.haveLast = false }
 
 func NewKeys(r *vh.Rand) *Keys {
 	k := &Keys{}
@@ -61,7 +68,7 @@ type CmdSpec struct {
 	// hand-in instant's whole seconds plus TsDelta
 	TsDelta int64   `json:"ts_delta_s"`
 	TsAbs   *uint64 `json:"ts_abs,omitempty"`
-	// valid | zero | wrongkey | bitflip | other-origin | other-id | other-ts | random
+	// valid | zero | wrongkey | bitflip | other-origin | other-id | other-ts | copied | random
 	Sig    string `json:"sig"`
 	SeenBy []int  `json:"seen_by"`
 	// filled in when the command is built
@@ -92,6 +99,16 @@ func (k *Keys) Build(s *CmdSpec, nowUnix int64) (origin identity.AgentID, sig [6
 	switch s.Sig {
 	case "valid":
 		copy(sig[:], ed25519.Sign(k.Priv, msg))
+		k.lastSig, k.haveLast = sig, true
+	case "copied":
+		// the genuine signature of an earlier, different command of this case
+		if k.haveLast {
+			sig = k.lastSig
+		} else {
+			for i := range sig {
+				sig[i] = byte(i*5 + 3)
+			}
+		}
 	case "zero":
 	case "wrongkey":
 		copy(sig[:], ed25519.Sign(k.WrongPriv, msg))
